@@ -29,6 +29,15 @@ ALPHABETS = [
 NAME_ALPHABET = 'abcdefghijklmnopqrstuvwxyzABCDEFGHIJKLMNOPQRSTUVWXYZ' \
                 '0123456789-_.:@#,/ '
 
+REAL_KEYS = ['x-death', 'x-first-death-exchange', 'x-first-death-queue',
+             'x-originating-application-instance-identifier (v2)',
+             'x-message-ttl', 'x-dead-letter-exchange', 'x-max-priority',
+             'CC', 'BCC', 'x-stream-offset', 'x-queue-type',
+             'content-disposition-filename-with-a-very-long-name.txt',
+             'traceparent', 'X-B3-TraceId', 'x-delay']
+COMMON_STRINGS = ['', 'a', 'gzip', 'text/plain', 'application/json', 'utf-8',
+                  'guest', '1', '2', 'amq.direct']
+
 # Frame-looking byte strings used inside bodies and as trailers.
 LOOKALIKES = [
     b'\xce', b'\xce\xce\xce', b'AMQP', b'AMQP\x00\x00\x09\x01',
@@ -126,10 +135,22 @@ class Gen:
         c = r.random()
         if c < 0.8:
             return self.text(10, ALPHABETS[0]) or 'k'
-        if c < 0.9:
+        if c < 0.88:
             return self.shortstr()
-        if c < 0.95:
+        if c < 0.92:
             return 'K' * r.choice([127, 128, 129, 130, 200])
+        if c < 0.94:
+            # over-long key with multi-byte characters around position 128
+            pad = r.choice([125, 126, 127, 128])
+            return 'k' * pad + r.choice(['é', '中', '\U0001f600']) * \
+                r.randint(1, 4) + 'z' * r.randint(0, 40)
+        if c < 0.97:
+            # header names as real peers send them: long, mostly
+            # conforming, one odd character somewhere
+            return r.choice(REAL_KEYS) if r.random() < 0.5 else (
+                ''.join(r.choice('abcdefghijklmnopqrstuvwxyz_$#')
+                        for _ in range(r.randint(20, 60))) +
+                r.choice([' ', '(', '!', '-', '.', 'é']) + self.text(4))
         return ''
 
     def timestamp_dt(self):
@@ -156,6 +177,8 @@ class Gen:
         if c < 0.3:
             return decimal.Decimal(r.randint(0, 10**6))
         places = r.randint(1, 6)
+        if c > 0.9:
+            places = r.randint(9, 14)   # many places, mantissa still 32 bit
         unscaled = r.randint(-10**6, 10**6) if c > 0.6 else \
             r.randint(0, 10**6)
         return decimal.Decimal(unscaled).scaleb(-places)
@@ -225,6 +248,13 @@ class Gen:
                 v = {'a%d' % i: [v, self.text(4)]}
         return v
 
+    def deep_array(self, depth):
+        """Arrays nested in arrays only (no table level in between)."""
+        v = [self.r.choice([1, 'x', None, True])]
+        for _ in range(depth):
+            v = [v]
+        return v
+
     def big_array(self):
         r = self.r
         n = r.choice([200, 500, 2000, 5000])
@@ -242,8 +272,10 @@ class Gen:
             return {}
         if c < 0.90:
             return self.table(1)
-        if c < 0.95:
+        if c < 0.93:
             return self.deep_table(r.choice([5, 8, 16, 32]))
+        if c < 0.95:
+            return {'nest': self.deep_array(r.choice([6, 12, 18, 24, 30]))}
         if self.big:
             return {'big': self.big_array()}
         return self.table(1)
@@ -335,9 +367,12 @@ class Gen:
             if name == 'delivery_mode':
                 v = r.choice([1, 2])
             elif wire == 'octet':
-                v = self.integer(0, 255)
+                v = self.integer(0, 255) if r.random() < 0.6 \
+                    else r.choice([0, 1, 2, 9])
             elif wire == 'shortstr':
-                v = self.shortstr()
+                # the same few strings turn up in different properties
+                v = self.shortstr() if r.random() < 0.65 \
+                    else r.choice(COMMON_STRINGS)
             elif wire == 'table':
                 v = self.any_table()
             elif wire == 'timestamp':
@@ -391,7 +426,10 @@ class Gen:
             parts.append({'rep': [{'b': unit.hex()}, max(1, n // 16)]})
         if not parts:
             parts.append({'b': '00'})
-        return {'k': 'body', 'ch': self.channel(), 'parts': parts}
+        d = {'k': 'body', 'ch': self.channel(), 'parts': parts}
+        if r.random() < 0.1:
+            d['mutable'] = True   # the caller hands over a bytearray
+        return d
 
     def frame(self, marker=None, mix=None, max_body=4096):
         r = self.r
@@ -464,6 +502,8 @@ def build_frame(desc):
                                         desc['body_size'], props), ch
     if k == 'body':
         data = b''.join(from_desc(p) for p in desc['parts'])
+        if desc.get('mutable'):
+            data = bytearray(data)
         return lib.body.ContentBody(data), ch
     if k == 'heartbeat':
         return lib.heartbeat.Heartbeat(), ch
